@@ -190,8 +190,11 @@ class AddedDiagLinearOperator(SumLinearOperator):
     ) -> Tuple[Float[LinearOperator, "*batch N N"], Float[Tensor, "... N"], Float[LinearOperator, "*batch N N"]]:
         if isinstance(self._diag_tensor, ConstantDiagLinearOperator):
             U, S_, V = self._linear_op.svd()
-            S = S_ + self._diag_tensor._diagonal()
-            return U, S, V
+            # (shifting the singular values is only an SVD of the sum if U, V are complete: a rank-deficient term
+            # returns thin factors, and the constant then also acts on the complement of their span)
+            if S_.shape[-1] == self.shape[-1]:
+                S = S_ + self._diag_tensor._diagonal()
+                return U, S, V
         return super()._svd()
 
     def _symeig(
@@ -201,8 +204,9 @@ class AddedDiagLinearOperator(SumLinearOperator):
     ) -> Tuple[Float[Tensor, "*batch M"], Optional[Float[LinearOperator, "*batch N M"]]]:
         if isinstance(self._diag_tensor, ConstantDiagLinearOperator):
             evals_, evecs = self._linear_op._symeig(eigenvectors=eigenvectors)
-            evals = evals_ + self._diag_tensor._diagonal()
-            return evals, evecs
+            if evals_.shape[-1] == self.shape[-1]:  # (see _svd)
+                evals = evals_ + self._diag_tensor._diagonal()
+                return evals, evecs
         return super()._symeig(eigenvectors=eigenvectors)
 
     def evaluate_kernel(self):
